@@ -533,7 +533,8 @@ var regression = []string{
 	"throw new Proxy({}, { get(t, k, r) { return k } })", "throw { toString(){ throw 1 } }", "throw { [Symbol.toPrimitive]: 1 }",
 	"switch(1){case 1: let x=1; eval(\"x\")}", "switch(1){case 1: let x1=1; eval(\"x1\"); default: let y1=2}", "(function(){ switch(1){case 1: let x=1; return eval(\"x\")} })()",
 	"\"é\".replaceAll(\"\", \"a\")", "var x=-0; x++; Object.is(x,1)", "(async function(){ await {constructor:Promise} })()",
-	"\"ab\".repeat(9007199254740993)", "#p in o && 1", "class A{ #p; static t(o){ return #p in o && 1 } } A.t({})", "x = #p in o && o instanceof F",
+	"(function(){ var a = 0; { let [] = []; eval(\"\"); return typeof a } })()", "var a5=0; { let {} = {}; eval(\"a5\") }", "(function(){ \"use strict\"; var a = 0; { let [,] = [1, 2]; eval(\"\"); return a } })()",
+	"\"a\".padEnd(2**53-1)", "\"ab\".repeat(9007199254740993)", "#p in o && 1", "class A{ #p; static t(o){ return #p in o && 1 } } A.t({})", "x = #p in o && o instanceof F",
 	"var rv=Proxy.revocable(function(){}, {}); rv.revoke(); Function.prototype.toString.call(rv.proxy)",
 	"x = (function*(){ try { x = yield 1; throw 2 } catch(e) { return e } })(); x.next(); x.next(3)", "(async function(){ try { u = await 1; null.p } catch(e) { return 1 } })()",
 }
